@@ -812,6 +812,7 @@ func init() {
 		section{"mutations", tiered(500, 40000), c02Mutations},
 		section{"crafted", tiered(60, 3000), c02Crafted},
 		section{"random", tiered(300, 20000), c02Random},
+		section{"scaling", func(string) int { return len(c02Families) }, c02Scaling},
 		concurrentSection("C02"),
 	)
 	core.Register(&core.Monitor{
